@@ -13,6 +13,7 @@ RULE = ('one run = a seeded history of commands executed by objects of different
         'the master creator_file and valid_seteuid policy (names incl. Root and Backbone, refusal, 0, array, string, raised error); '
         'after every command getuid/geteuid of every live object is compared with a reference model; non-trivial = at least one refusal '
         '(no-euid creation, refused seteuid, refused export) and one uid change; distinct = distinct abstract outcome sequence.')
+RULE += (' seteuid/export_uid also through an efun pointer that the actor makes, binds to another object (valid_bind answering 1, 0 or with an error) and evaluates: the owner does it, by the same rules, and a refused bind does nothing.')
 RULE += (' Later additions: masters whose valid_object()/creator_file() look at the uids; euid dropped between check and use (before a blueprint is loaded for a clone).')
 COMPONENTS = {'real': ['src/simulate.c give_uid_to_object/load_object/clone_object', 'lib/efuns/uids.c seteuid/export_uid/getuid/geteuid/uid table',
                        'src/apply.c master applies', 'LPC compiler and interpreter', 'src/comm.c + backend (commands arrive over the simulated socket)'],
@@ -80,12 +81,16 @@ def gen(rng, tier, i):
             op = 'umclone %s %s %d' % (rng.choice(FILES), t, rng.randint(0, 1)); tags.append(t); actor = 'u0'
         elif r < 0.62:
             op = 'useteuid %s' % rng.choice(NAMES + ['0', '0', 'me'])
+            # ... or not by the object itself: an efun pointer to seteuid made by the actor, bound to another object, evaluated
+            if rng.random() < 0.25: op = 'ubind %s seteuid %s' % (rng.choice(tags + FILES[:2]), op.split(' ')[1])
         elif r < 0.77:
             op = 'uexport %s' % rng.choice(tags)
+            if rng.random() < 0.25: op = 'ubind %s export %s' % (rng.choice(tags + FILES[:2]), op.split(' ')[1])
         elif r < 0.85:
             op = 'ucf %s %s' % (rng.choice(FILES), rng.choice(CF_ANS)); actor = 'u0'
         elif r < 0.93:
             op = 'uvs %s %s' % (rng.choice(NAMES), rng.choice(VS_ANS)); actor = 'u0'
+            if rng.random() < 0.25: op = 'uvb %s' % rng.choice(('0', '0', '1', 'E'))
         else:
             t = rng.choice(tags)
             if t == 'u0': continue
@@ -113,6 +118,7 @@ def check(plan, res):
     window = []                          # records inside the current command
     last_uids = None
     vobjs = {}                           # virtual name -> model key of the object that answers to it
+    bindw = None                         # a bind() in progress: who binds onto whom, what valid_bind said
     stale = set()                        # keys whose model state is unknown after an anomalous creation (judged once)
 
     def creation_rules(creator_key, ans, snap=None):
@@ -196,6 +202,19 @@ def check(plan, res):
                     if virt and not pend['cf'] and pend['file'] in vobjs and vobjs[pend['file']] in model:
                         model[pend['tag']] = model[vobjs[pend['file']]]
             pend = None
+        elif w[0] == 'UBIND':
+            bindw = {'me': w[1], 'owner': w[2], 'same': w[3] == 'same=1', 'vb': None}
+        elif w[0] == 'VB' and bindw is not None:
+            bindw['vb'] = w[3][4:]
+        elif w[0] == 'UBINDDONE' and bindw is not None:
+            bound = w[3] == 'bound=1'
+            if bound and not bindw['same']:
+                # somebody else's function now runs as the owner: only with the master's word
+                if bindw['vb'] is None: bad('bind', 'bind() by %s onto %s succeeded without asking the master' % (bindw['me'], bindw['owner']), 'bind/unasked')
+                elif bindw['vb'] != '1': bad('bind', 'bind() by %s onto %s succeeded although valid_bind answered %s' % (bindw['me'], bindw['owner'], bindw['vb']), 'bind/refused-succeeded')
+            if not bound and (bindw['same'] or bindw['vb'] == '1'):
+                bad('bind', 'bind() by %s onto %s failed (same object: %s, valid_bind: %s)' % (bindw['me'], bindw['owner'], bindw['same'], bindw['vb']), 'bind/approved-failed')
+            bindw = None
         elif w[0] == 'USETEUID':
             me, val, ret, er = w[1], w[2], w[3][4:], w[4][4:]
             st = model.get(me)
@@ -292,4 +311,6 @@ def summarize(plan, res):
     return {'nontrivial': refusals > 0 and changes > 0, 'abstract': hashlib.sha256(' '.join(kinds).encode()).hexdigest()[:16],
             'probes': {'refusals': refusals, 'uid_changes': changes,
                        'no_euid_creation_attempts': sum(1 for e in res.events if e.kind == 'R' and 'effective' in e.rest.lower()),
+                       'bound_calls': sum(1 for e in res.events if e.kind == 'R' and e.rest.startswith('UBINDDONE ') and e.rest.endswith('bound=1')),
+                       'binds_refused': sum(1 for e in res.events if e.kind == 'R' and e.rest.startswith('UBINDDONE ') and e.rest.endswith('bound=0')),
                        'backbone_creations': sum(1 for e in res.events if e.kind == 'R' and e.rest.startswith('CF ') and e.rest.endswith('ans=Backbone'))}}
